@@ -261,6 +261,7 @@ static inline void verif_lib_anchor(void) { float f__ = roundf(0.5f) + floorf(0.
 
 /* std model support */
 #ifndef VERIF_REPLAY
+extern unsigned long verif_sp_dest_i, verif_sp_dest_j, verif_sp_src_i, verif_sp_src_j, verif_sp_kept; /* ghost bookkeeping of the std::stable_partition model */
 extern unsigned long verif_mm; /* ghost: position at which the last std::mismatch / std::equal model stopped */
 extern unsigned long verif_gi, verif_gj, verif_hi, verif_hj; /* ghost indices: contracts over sequences are stated at these arbitrary positions */
 extern unsigned long verif_atomic_ops; /* ghost: number of atomic accesses performed (atomic discipline) */
